@@ -371,7 +371,7 @@ func (s *Sim) Join(id string) error {
 	rg := pt.VerifAutoJoinGroup(s.TE)
 	expect := false
 	if rg != nil {
-		if idx := s.TE.GetTable().FindPlayerIdx(id); idx >= 0 && !s.TE.GetTable().State.PlayerStates[idx].IsIn {
+		if idx := PlayerIdx(s.TE.GetTable(), id); idx >= 0 && !s.TE.GetTable().State.PlayerStates[idx].IsIn {
 			if ready, ok := rg.GetParticipantStates()[int64(idx)]; ok && !ready {
 				expect = true
 			}
@@ -635,6 +635,41 @@ func pidOf(t *pt.Table, gp int) string {
 // PidOf is exported for oracles.
 func PidOf(t *pt.Table, gp int) string { return pidOf(t, gp) }
 
+
+// Independent re-implementations of the table's own look-up helpers: the monitors must not judge the engine with
+// the engine's own (possibly changed) code.
+
+// GameIdx returns the hand entry of player id on table t, or -1.
+func GameIdx(t *pt.Table, id string) int {
+	for gp, pi := range t.State.GamePlayerIndexes {
+		if pi >= 0 && pi < len(t.State.PlayerStates) && t.State.PlayerStates[pi].PlayerID == id {
+			return gp
+		}
+	}
+	return -1
+}
+
+// PlayerIdx returns the index of player id in the table's player list, or -1.
+func PlayerIdx(t *pt.Table, id string) int {
+	for i, ps := range t.State.PlayerStates {
+		if ps.PlayerID == id {
+			return i
+		}
+	}
+	return -1
+}
+
+// AliveCount is the number of seated players with chips.
+func AliveCount(t *pt.Table) int {
+	n := 0
+	for _, ps := range t.State.PlayerStates {
+		if ps.Bankroll > 0 {
+			n++
+		}
+	}
+	return n
+}
+
 // PlayHand consumes events until the running/next hand has settled and the
 // engine has either set up the following hand or paused (or nothing happens for MaxWait).
 func (s *Sim) PlayHand(sc *Script) *Hand {
@@ -750,7 +785,7 @@ func (s *Sim) react(e *Ev, sc *Script, h *Hand) {
 			}
 		}
 		for _, pid := range order {
-			gp := t.FindGamePlayerIdx(pid)
+			gp := GameIdx(t, pid)
 			err := s.Do(pid, act, chips(gp))
 			rec := ActRec{PID: pid, GP: gp, Act: act, Chips: chips(gp), Round: kind, Seq: e.Seq}
 			if err != nil {
